@@ -73,8 +73,8 @@ def rules(fx, rep):
     c13.rule_h2f(fx, rep)
     c13.rule_from_okm(fx, rep)
     c13.rule_fq2(fx, rep)
-    c13.rule_xmd(fx, rep)
-    c13.rule_xof(fx, rep)
+    c13.rule_xmd_semantic(fx, rep)
+    c13.rule_xof_semantic(fx, rep)
 
 
 def main(tier, t0):
